@@ -25,6 +25,9 @@ pub enum Cmd {
     /// A line the documented grammar rejects: reported as an error, no effect, no new prompt.
     Rejected(String),
     Reset,
+    /// `eval jmp rK` (branches are not allowed in `eval`, JMP is): the PC becomes the register's value,
+    /// nothing else changes.
+    EvalJmp(u8),
     Quit,
     Exit,
 }
@@ -171,6 +174,7 @@ impl Cmd {
             Cmd::MoveMemLoc(l, v) => format!("{} {} x{:04x}", p(&["move", "m"]), l.text(pick / 8), v),
             Cmd::Rejected(s) => s.clone(),
             Cmd::Reset => p(&["reset", "z"]),
+            Cmd::EvalJmp(r) => format!("{} {} {}{}", p(&["eval", "e"]), p(&["jmp", "JMP", "Jmp"]), p(&["r", "R"]), r),
             Cmd::Quit => p(&["quit", "q"]),
             Cmd::Exit => p(&["exit", "x", ":q"]),
         }
@@ -354,6 +358,10 @@ impl RefDbg {
                 if d.in_user_space(*a) {
                     d.vm.pc = *a;
                 }
+                one(d, After::Prompt, 0)
+            }
+            Cmd::EvalJmp(r) => {
+                d.vm.pc = d.vm.reg[*r as usize];
                 one(d, After::Prompt, 0)
             }
             Cmd::Reset => {
